@@ -1,4 +1,5 @@
 """C11 - malformed input is skipped without harming the connection or its neighbours."""
+import os
 import pickle
 import struct
 
@@ -352,7 +353,73 @@ def nontrivial_items(items):
   return False
 
 
+def execute_raw(ctx, case):
+  """A raw byte stream (found by the coverage-guided campaign, or replayed): only the clauses that need no
+  knowledge of which items are malformed - no exception leaves the handler, no disconnect unless a line/frame
+  exceeded the maximum length."""
+  b = env.bootstrap()
+  env.reset()
+  kind = case['listener']
+  body = bytes.fromhex(case['raw'])
+  step = case.get('step', 0)
+  lst = wire.Listener(kind)
+  if kind == 'udp':
+    lst.datagram(body)
+  else:
+    lst.feed(body, list(range(step, len(body), step)) if step else [])
+  items = [{'kind': 'fuzzy', 'hex': case['raw'], 'expected': [], 'cls': 'raw'}]
+  if kind == 'line' and any(len(l) > 16384 for l in body.split(b'\n')):
+    items[0]['kind'] = 'desync'
+  if kind == 'pickle':
+    off = 0
+    while off + 4 <= len(body):
+      (n,) = struct.unpack('!I', body[off:off + 4])
+      if n > b.settings.PICKLE_RECEIVER_MAX_LENGTH:
+        items[0]['kind'] = 'desync'
+        break
+      off += 4 + n
+  if judge(ctx, case, items, [], lst, 'raw stream', ''):
+    ctx.note(case, nontrivial=False, classes=['raw:' + kind])
+
+
+def atheris_campaign(ctx, which, runs):
+  """thorough tier: coverage-guided byte-level search (libFuzzer through atheris) with the oracle inside the
+  target; a finding is converted into a replay case and re-judged here through the normal oracle."""
+  import subprocess
+  import sys
+  import tempfile
+  import shutil
+  out = tempfile.mkdtemp(prefix='verif-fuzz-')
+  try:
+    try:
+      import atheris  # noqa
+    except Exception as e:  # noqa
+      ctx.extra['atheris'] = {'skipped': 'atheris not importable: %r' % (e,)}
+      return []
+    cmd = [sys.executable, '-m', 'verif.fuzz.target', which, out, '-runs=%d' % runs, '-seed=%d' % (ctx.shard_seed() % 2**31 or 1),
+           '-max_len=600', '-verbosity=0', '-rss_limit_mb=0']
+    p = subprocess.run(cmd, stdout=subprocess.PIPE, stderr=subprocess.STDOUT, timeout=1800)
+    findings = []
+    for name in sorted(os.listdir(out)):
+      if name.startswith('finding-') and name.endswith('.bin'):
+        findings.append(open(os.path.join(out, name), 'rb').read())
+    info = ctx.extra.setdefault('atheris', {'runs': 0, 'findings': 0})
+    if p.returncode not in (0, 77):
+      info['error'] = 'target exited %s: %s' % (p.returncode, p.stdout.decode('utf-8', 'replace')[-300:])
+    else:
+      info['runs'] = info.get('runs', 0) + runs
+      info['findings'] = info.get('findings', 0) + len(findings)
+    return findings
+  except subprocess.TimeoutExpired:
+    ctx.extra['atheris'] = {'skipped': 'campaign exceeded its time budget (inconclusive)'}
+    return []
+  finally:
+    shutil.rmtree(out, True)
+
+
 def execute(ctx, case):
+  if 'raw' in case:
+    return execute_raw(ctx, case)
   kind = case['listener']
   if kind == 'udp':
     env.reset()
@@ -390,3 +457,7 @@ def run(ctx):
   run_given(ctx, line_cases(), execute, n, salt=1)
   run_given(ctx, pickle_cases(), execute, n, salt=2)
   run_given(ctx, udp_cases(), execute, n, salt=3)
+  if not ctx.quick:
+    for data in atheris_campaign(ctx, 'c11', 150000):
+      if len(data) >= 2:
+        execute(ctx, {'listener': ('line', 'pickle', 'udp')[data[0] % 3], 'step': data[1], 'raw': data[2:].hex()})
